@@ -117,6 +117,39 @@ reg(
     "DESIGN.md section 4 C05",
 )
 
+reg(
+    "C13",
+    "TLA+ R-spec FlashEnc.tla of the on-the-fly decryption engines at cell granularity (which context answers a fetch - first valid context containing the "
+    "absolute address -, whether it decrypts, the address-derived cipher input: OTFAD address, BEE and IEE-CTR address>>4, IEE-XTS page number; what the ROM must "
+    "find in each key-blob record); TLC model-checks geometry lemmas and SPSDK's chunk walk as an I-spec (whose as-built variant must be refuted), enumerates the "
+    "structural case space; every case runs through the real Otfad/OtfadNxp, Iee/IeeNxp, BeeNxp code; an independent engine and ROM model loads the exported key "
+    "blobs and reads the exported image cell by cell; TLC validates every logged address, byte count, context and cipher input and demands ok = TRUE for every cell, "
+    "locality cut and blob",
+    "Exhaustive over the TLC-enumerated space (1..3 unit-aligned disjoint regions - decrypting, bypassing, invalid - in a 12-cell window, every base cell and length) "
+    "crossed with the three engines, byte tails {0,1,15,16,17}, sub-cell base offsets, engine modes, both end-address conventions and both API levels; up to 4 regions "
+    "in wider windows by seeded samples; tampered key blobs must be rejected.",
+    "Trusted: TLC, the cryptography AES block function, harness/c13_hw.py (reproduces the NXP image_enc artefacts and RFC 3394 / IEEE 1619 / CRC vectors on every "
+    "run), the per-cell projection in c13.py. Outside the claim: an inclusive IEE end address, carry of the IEE CTR counter, page_offset != 0, the YAML/CLI layer, BEE "
+    "header integrity (the format has none).",
+    "DESIGN.md section 4 C13",
+)
+
+reg(
+    "C14",
+    "Explicit TLA+ reader automaton of the bootable-image layout (Bimg.tla) over segment tables extracted from the device database at run time; TLC model-checks the "
+    "layout lemmas (NoOverlap, StartsWhereTold, DynamicFollows, InitSnap, FirstAtZero, CursorMonotone, TotalIsEnd) over every case of all 22 distinct tables and emits "
+    "the cases; Python drives the real BootableImage (load_from_config, init_offset, set_init_offset, export, parse) with real MBI / HAB / AHAB / SB / FCB / XMCD "
+    "payloads on all 820 (family, revision, memory type) triples, reads the exported bytes with a dumb scanner, and TLC batch trace validation (BimgTrace.tla) decides "
+    "every execution",
+    "model checking of the layout algebra (32k states quick, 73k thorough) + validated executions (1.5k quick, ~9.8k thorough): every subset of optional segments x "
+    "payload length classes x init offsets per table, each executed on at least one triple of its table; offsets, gaps, total length, InitSnap, refusal and per-segment "
+    "parse facts are recomputed by the spec.",
+    "Trusted: TLC, the scanner (bytes.find and pattern compare), the payload builders (SPSDK's own public MBI / HAB / AHAB / FCB / XMCD classes, golden SB files). "
+    "Segment sizes and the 1024 alignment come from the SPSDK classes at run time, offsets and fill pattern from the database. Design-level parse limitations (image "
+    "starting at a non-INIT segment, full-image attempt misdetection, 516-byte XMCD) are listed in known_findings.jsonl.",
+    "DESIGN.md section 4 C14",
+)
+
 NOT_YET = {
 }
 
